@@ -69,6 +69,14 @@ func Corpus() []Case {
 	both("spread of generator + new + method call", func() []*gm.N {
 		return gm.L(gm.St(gm.AsgN("a", gm.ES(gm.New, "Pt", gm.ES(gm.MCall, "m", v("o"), y(1), gm.E(gm.Arr, gm.E(gm.Spread, gm.GI(3)), y(2))), y(3)))))
 	})
+	both("for-of over an iterator whose return() result is not an object, inside a catch block", func() []*gm.N {
+		return gm.L(gm.TryN(gm.L(gm.ThrN(gm.NumN(5))),
+			gm.L(gm.ForOfN(gm.It(gm.ItHasReturn|gm.ItRetPrim), gm.L(gm.St(gm.AsgN("a", y(1)))))), nil, gm.HasCatch))
+	})
+	both("for-of over an iterator whose return() throws, inside a finally block", func() []*gm.N {
+		return gm.L(gm.TryN(gm.L(gm.LgS("T")), nil,
+			gm.L(gm.ForOfN(gm.It(gm.ItHasReturn|gm.ItRetThrow), gm.L(gm.St(gm.AsgN("a", y(1))))), gm.St(gm.AsgN("b", y(2)))), gm.HasFinally))
+	})
 	return res
 }
 
